@@ -280,7 +280,10 @@ reg(Spec("C08", "Props/C08.v", harness="workers", overlay={},
     assumptions=[
       "daemon = errgroup over group_workers; a daemon round = one fair round of every worker under the same group context; that a returned error or a signal cancels it for good by the end of the round, and that Wait returns non-nil iff a worker failed, is no longer a stated rule of Model/Workers.v alone: every round of the composite (workers + errgroup machine, Model/ErrgroupDaemon.v: a round of every worker, then three fair rounds of the group's own threads) is PROVED to be such a daemon round (C08_errgroup_round_is_dround, C08_errgroup_daemon_simulation / _exit / _fail_stop)",
       "signal delivery, log.Fatalln's status 1, the kernel FIFO and 'buffer full' under load (writer floods 1.2 s, >40k lines vs 10000 slots) are runtime facts observed on the built binary (bound 5 s)",
-      "optional HTTP/metrics workers are listed, not modelled; that their flags default to false is generated and proved (C08_optional_workers_off_by_default)",
+      "optional HTTP/metrics workers: their goroutines are generated and stated per flag valuation (C08_http_server_goroutines_from_source, C08_audit_metrics_ticker_from_source, C08_optional_workers_off_by_default); what "
+      "net/http's Shutdown / ListenAndServe do is not modelled - observed on the built binary (harness/workers/c08_http.go): every flag valuation that starts an optional worker, HTTP clients in every connection state at the moment "
+      "of the stop cause (none, fresh, idle keep-alive, request half sent, pipelined requests whose responses are not read / read slowly so that a handler blocks in Write, 40 connections), both signals, every worker failure and "
+      "the HTTP worker's own (port taken); bound 5 s. The server's address is fixed in the source (:2112): these scenarios run one at a time under a machine-wide lock file and are skipped with a note when a foreign process holds the port",
       "exit status: Workers.exited's 1/0 is tied to func main as interpreted from main.go (C08_exit_status_from_source); log.Fatal* = 1 and os.Exit(n) = n are the interpreter's reading of the standard library"],
     modelled=WORKERS_MODELLED, extra_targets=["Model/ErrgroupCheck.vo"]))
 
